@@ -1,7 +1,7 @@
 (* C06 — the buffer invariant lifted to whole connections (any segmentation, any close timing) *)
 From Coq Require Import NArith List Bool Arith Lia.
 Import ListNotations.
-From LTV.C06 Require Import ParamsGen Model ProofsInv.
+From LTV.C06 Require Import ParamsProbe Model ProofsInv.
 
 (* ---------------------------------------------------------------- runs *)
 Definition safe_out (o : out) : Prop :=
